@@ -293,10 +293,19 @@ def _smooth_ranking(rc: RuleCtx):
         w_e = [e for e in app_events if e not in fit_e]
         ok = len(fit_e) == 1 and len(w_e) == 1 and fit_e[0].args[0].equals(want_fit) and isinstance(w_e[0].args[0], Rat) and w_e[0].args[0].equals(want_w) \
             and fit_e[0].guard.kind == "true" and w_e[0].guard.kind == "true"
+        vec_w = None
+        if not w_e and len(fit_e) == 1:
+            # the weights computed for all knees at once, before the loop: |peak - y[knees]|
+            want_w_all = anf.f_abs(peak - anf.opaque("take", y, knees, array=True))
+            for nme_, v_ in env.items():
+                if isinstance(v_, Rat) and v_.is_array() and v_.equals(want_w_all):
+                    vec_w = nme_
+            if vec_w is not None:
+                ok = fit_e[0].args[0].equals(want_fit) and fit_e[0].guard.kind == "true"
         if not fit_e and not w_e:
             raise AnalysisError(f"knee_ranking.smooth_ranking[{mode}]: the per-knee fit and weight are not collected by appends - shape not recognised")
         apps = {"fit": fit_e[0] if fit_e else None, "weights": w_e[0] if w_e else None}
-        fname_, wname_ = (fit_e[0].target if fit_e else "fit"), (w_e[0].target if w_e else "weights")
+        fname_, wname_ = (fit_e[0].target if fit_e else "fit"), (w_e[0].target if w_e else (vec_w or "weights"))
         rng_ok = b_.visits(0, sym("K"))
         # tail: weights normalised by their sum when non-zero; rankings = fit * weights
         ev.len_map.update({"fit!": sym("K"), "weights!": sym("K")})
